@@ -140,29 +140,37 @@ func concScenarios() []*mc.Scenario {
 	}
 	return []*mc.Scenario{
 		// (a) the real quota layer over the counting base pool.
-		// One file slot: two creations collide, a close races with a creation.
+		// One file slot: two creations collide, a close races with a
+		// creation, the slot is reused.
 		concScenario(quota("conc-quota-1file-4bytes", 1, 4, nil, false),
 			[][]cop{{N(2), C, N(0)}, {N(3), C}}, -1, -1),
 		// Two bytes left, two growing calls that want both of them; then
 		// shrinking / closing races with growing.
 		concScenario(quota("conc-quota-2files-4bytes-grow", 2, 4, []int{1, 1}, false),
 			[][]cop{{T(3), T(0)}, {W(1, 2), C}}, -1, -1),
+		// Creation with bytes against creation + growth.
 		concScenario(quota("conc-quota-2files-4bytes-mixed", 2, 4, nil, false),
-			[][]cop{{N(2), W(1, 3), C}, {N(2), T(4), T(1)}}, -1, -1),
+			[][]cop{{N(2), C}, {N(1), T(3)}}, -1, -1),
+		// Growing write against creation + growing write.
+		concScenario(quota("conc-quota-2files-4bytes-write", 2, 4, []int{1, -1}, false),
+			[][]cop{{W(1, 2), T(1)}, {N(2), W(2, 1)}}, -1, -1),
 		// Three threads, two file slots: a creation that fails on bytes
 		// transiently occupies a file slot.
 		concScenario(quota("conc-quota-2files-4bytes-3threads", 2, 4, nil, false),
-			[][]cop{{N(1), C}, {N(4), C}, {N(0), T(3)}}, 3, -1),
+			[][]cop{{N(1), C}, {N(4)}, {N(0)}}, 3, -1),
 		// Base pool failures: roll-back races with allocation.
-		concScenario(quota("conc-quota-1file-4bytes-basefaults", 1, 4, []int{-1, 1}, true),
+		concScenario(quota("conc-quota-2files-4bytes-basefaults", 2, 4, []int{-1, 1}, true),
 			[][]cop{{N(2), C}, {T(3), C}}, -1, -1),
 		// (b) block device + real bitmap allocator.
 		concScenario(block("conc-block-ss2-cap4", "block", 2, 4, 0, 0, []int{0, 0}),
 			[][]cop{{W(0, 3), T(1), C}, {W(1, 2), W(4, 1), C}}, -1, -1),
 		concScenario(block("conc-block-ss2-cap3-exhaustion", "block", 2, 3, 0, 0, []int{0, 0}),
 			[][]cop{{W(0, 4), C}, {W(0, 4), T(2), W(2, 2)}}, -1, -1),
-		concScenario(block("conc-full-ss2-cap3-quota2x6", "full", 2, 3, 2, 6, []int{0, -1}),
-			[][]cop{{W(0, 3), T(1), C}, {N(2), W(1, 4), C}}, -1, -1),
+		// Full stack; the device (3 sectors) is exhausted before the quota
+		// (8 bytes) is: partial writes release part of their reservation
+		// while the other thread allocates.
+		concScenario(block("conc-full-ss2-cap3-quota2x8", "full", 2, 3, 2, 8, []int{0, 2}),
+			[][]cop{{W(0, 3), T(4)}, {W(1, 4)}}, -1, -1),
 	}
 }
 
